@@ -135,7 +135,11 @@ def float_printer(funcs):
     return None
 
 
+_SOFT15 = []
+
+
 def run(ctx, idx):
+    del _SOFT15[:]
     ctx.assume("str()/repr() of int prints -?d+; of float prints d+.d+, d(.d+)?e[+-]dd+, inf or nan (reference languages fixed by Python)")
     ctx.rule("C15.a", "Numbers: every text the serialiser can print for an int or float is read back as a number: L_repr_int ⊆ L(INT) and L_repr_float ⊆ L(FLOAT) ∪ (single plain token that float() accepts).")
     ctx.rule("C15.b", "Strings are escaped for the reader: a str value reaches the output between quotes only through an escaping step handling the backslash and then the quote; reference names are emitted bare only for Result-typed parameters.")
@@ -388,6 +392,24 @@ def run(ctx, idx):
 
     for r in bare:
         fine = not reachable_otherwise(r)
+        if not fine:
+            # written bare only when the loader's own parser, run on the text right there, reads it back as this very string
+            # (`probe(value) == value`, probe calling <Parser>.parse): a run-time round trip - whether the probe stands for the place
+            # the text is written into is not decided here
+            probe = False
+            for t in cfg.find("test"):
+                if not (cfg.dominates(t, r) and isinstance(t.ast, ast.Compare) and len(t.ast.ops) == 1 and isinstance(t.ast.ops[0], ast.Eq)):
+                    continue
+                sides = [t.ast.left, t.ast.comparators[0]]
+                if any(isinstance(x, ast.Name) and x.id == vp for x in sides):
+                    for x in sides:
+                        if isinstance(x, ast.Call) and isinstance(x.func, ast.Name) and x.args and isinstance(x.args[0], ast.Name) and x.args[0].id == vp:
+                            rr = idx.resolve(sv.module, x.func, sv)
+                            if rr is not None and rr[0] == "func" and ".parse(" in K.src(getattr(rr[1], "node_orig", None) or rr[1].node):
+                                probe = True
+            if probe:
+                _SOFT15.append("C15.b: `%s` (line %d) is written without quotes only when a parse of the text, made on the spot, gives the same string back; whether that probe is representative of where the text ends up is not decided" % (K.src(r.ast)[:30], r.line))
+                continue
         con_b = "%s::bare-text@%d" % (ts.key, bare.index(r) + 1)
         ctx.ob("C15.b", con_b, K.rel(sv), r.line, fine, "the value is written as it is only for result references and for values that are not text" if fine else
                "`%s` writes a string that is not a result reference without quotes: the loader tokenises it again - identifiers and numbers are recognised first, blanks between tokens are dropped, numbers are re-spelled (`run 1/in.csv` comes back `run1/in.csv`, `007.csv` as `7.0csv`) - so the reloaded argument is another text" % K.src(r.ast)[:40])
@@ -506,3 +528,5 @@ def run(ctx, idx):
                     if "result_name" in mine and "name" in mine and mine.index("result_name") < mine.index("name"):
                         ok = True
     ctx.ob("C15.d", "%s::heads" % ts.key, rel, ts.node.lineno, ok, "each command is written as result_name = name(...)" if ok else "a command is not written as `result_name = command name(...)`")
+    if _SOFT15:
+        raise AnalysisError(_SOFT15[0])
